@@ -194,13 +194,19 @@ func (e *Engine) runOnce(ops []string, res *report.Result) *report.Failure {
 	for k, c := range calls {
 		wg.Add(1)
 		delay := time.Duration(rnd.Intn(3)) * 400 * time.Microsecond
+		// some clients upload their body slowly: whatever the handler does between reading the
+		// first and the last byte of it happens while the other requests run
+		var pause time.Duration
+		if rnd.Intn(3) == 0 {
+			pause = time.Duration(2+rnd.Intn(6)) * time.Millisecond
+		}
 		go func(k int, c *call) {
 			defer wg.Done()
 			<-start
 			time.Sleep(delay)
 			_, method, path, ua, body, _ := e4.ModelLine(c.op)
 			inv := time.Now()
-			st, _ := e.E4.Do(h, method, path, ua == "b", body)
+			st, _ := e.E4.DoSlow(h, method, path, ua == "b", body, pause)
 			ret := time.Now()
 			mu.Lock()
 			c.inv, c.ret, c.status, c.returned = inv, ret, st, true
